@@ -328,7 +328,10 @@ class GFCrystalcalc(object):
         # 3. Spatially rotate the Taylor expansion
         self.d, self.e = LA.eigh(self.D / self.maxrate)
         # had been 1e-11; changed to 1e-7 to reflect likely integration accuracy of k-point grids
-        self.pmax = np.sqrt(min([np.dot(G, np.dot(G, self.D / self.maxrate)) for G in self.crys.BZG]) / -np.log(pmaxerror))
+        # smallest value of q.D.q on each zone face (the plane q.G = G.G), not its value at the face centre:
+        # for anisotropic D not aligned with the reciprocal vectors the minimum is much smaller
+        Dinv = np.linalg.inv(self.D / self.maxrate)
+        self.pmax = np.sqrt(min([np.dot(G, G)**2 / np.dot(G, np.dot(Dinv, G)) for G in self.crys.BZG]) / -np.log(pmaxerror))
         self.qptrans = self.e.copy()
         self.pqtrans = self.e.T.copy()
         self.uxtrans = self.e.T.copy()
